@@ -153,6 +153,14 @@ def spec_unary(enc, base, a):
 
 def spec_binary(enc, base, a, b):
     a, b = X.T(a, 32), X.T(b, 32)
+    if base == "Add" and a == b:
+        # x + x == 2 * x exactly in IEEE arithmetic (helps the solver below
+        # nested multiplications/divisions)
+        base, a = "Mul", X.bv(0x40000000, 32)
+    if base in ("Add", "Mul") and b < a:
+        # IEEE addition and multiplication are commutative (NaN payloads aside):
+        # a canonical operand order makes commuted terms syntactically equal
+        a, b = b, a
     if base in ("Add", "Sub", "Mul", "Div"):
         return X.fop(base.lower(), a, b), None
     if base in ("Min", "Max", "And", "Or"):
@@ -425,7 +433,7 @@ _solver2 = None
 def work_point(chunk):
     global _solver2
     if _solver2 is None:
-        _solver2 = Solver("z3", timeout_ms=20000)
+        _solver2 = Solver("z3", timeout_ms=3000)
         _solver2.send(T.PRELUDE_FP)
     t0 = _solver2.time_s
     out = []
@@ -609,7 +617,7 @@ def check_fslice(sc, solver, validate_vectors=None):
 def work_fslice(chunk):
     global _solver2
     if _solver2 is None:
-        _solver2 = Solver("z3", timeout_ms=20000)
+        _solver2 = Solver("z3", timeout_ms=3000)
         _solver2.send(T.PRELUDE_FP)
     t0 = _solver2.time_s
     out = []
@@ -1012,7 +1020,7 @@ def check_interval(sc, solver, validate_vectors=None):
 def work_interval(chunk):
     global _solver2
     if _solver2 is None:
-        _solver2 = Solver("z3", timeout_ms=20000)
+        _solver2 = Solver("z3", timeout_ms=3000)
         _solver2.send(T.PRELUDE_FP)
     t0 = _solver2.time_s
     out = []
@@ -1054,3 +1062,66 @@ def real_runs_interval(scs, count):
         out.setdefault(r["id"], []).append(([int(w, 16) for w in r["vars"].split()], [int(w, 16) for w in r["out"].split()],
                                              r.get("trace"), [int(w, 16) for w in r.get("vm_out", "").split()], r.get("vm_trace")))
     return out
+
+
+# ---------------------------------------------------------------------------
+# C12: Context constructors.  Both the expression as written and the graph the
+# Context actually built are evaluated with the full opcode specification.
+
+def eval_graph_spec(enc, lines, prefix):
+    vals = []
+    for line in lines:
+        t = line.split()
+        if t[0] == "in":
+            vals.append(enc.const("x_" + t[1]))
+        elif t[0] == "const":
+            vals.append(X.bv(int(t[1], 16), 32))
+        elif t[0] == "un":
+            vals.append(enc.define(prefix, spec_unary(enc, t[1], vals[int(t[2])])))
+        elif t[0] == "bin":
+            v, _ = spec_binary(enc, t[1], vals[int(t[2])], vals[int(t[3])])
+            vals.append(enc.define(prefix, v))
+        else:
+            raise X.Unsupported("graph line " + line)
+    return vals
+
+
+def finite(v):
+    f = X.fp(v)
+    return "(not (or (fp.isNaN %s) (fp.isInfinite %s)))" % (f, f)
+
+
+def check_construct(rec, solver):
+    out = {"id": rec["id"], "status": "unsat", "problems": []}
+    if "panic" in rec:
+        out["status"] = "fail"
+        out["problems"].append("constructor panicked: " + rec["panic"])
+        return out
+    if not rec.get("dedup", True):
+        out["problems"].append("building the same expression twice gave two different nodes")
+    enc = Enc2(fp=True, mode="base")
+    ev = eval_graph_spec(enc, rec["expr"], "u")
+    gv = eval_graph_spec(enc, rec["graph"], "g")
+    want, got = ev[rec["expr_root"]], gv[rec["root"]]
+    pre = X.band(*[finite(v) for v in ev])
+    goal = "(and %s (not (fp.eq %s %s)))" % (pre, X.fp(got), X.fp(want))
+    xs = sorted(c for c in enc.consts if c.startswith("x_"))
+    res, model = T.query(solver, enc, goal, xs, fallback_prelude=T.PRELUDE_FP)
+    out["status"] = res
+    if res == "sat":
+        out["model"] = model
+    # non-triviality witness: the finiteness premise is satisfiable
+    if res == "unsat":
+        r2, _ = T.query(solver, enc, pre)
+        out["premise_sat"] = r2 == "sat"
+    return out
+
+
+def work_construct(chunk):
+    global _solver2
+    if _solver2 is None:
+        _solver2 = Solver("z3", timeout_ms=3000)
+        _solver2.send(T.PRELUDE_FP)
+    t0 = _solver2.time_s
+    out = [check_construct(rec, _solver2) for rec in chunk]
+    return out, _solver2.time_s - t0, len(chunk)
